@@ -506,6 +506,41 @@ Proof.
     destruct (af_ver (ax_f a) <? 2); [discriminate|]. destruct (new_compressed_chunk crc buf); discriminate.
 Qed.
 
+Lemma aresolve_np a : N.of_nat (length (ax_prefixes a)) < 4294967296 -> Forall (fun x => x < u64) (ax_prefixes a) ->
+  forall reqs, Forall (fun h => addr_prefix h < u64) reqs -> forall acc, aresolve a reqs acc <> Panic.
+Proof.
+  intros H1 H3 reqs Hr. induction Hr as [|h rest Hh Hrest IH]; intro acc; cbn [aresolve]; [discriminate|].
+  pose proof (no_panic_archive_has a h H1 Hh H3) as Hp. unfold ahas in Hp.
+  destruct (afind a h) as [[idx|]| |]; cbn [bind]; [ | apply IH | discriminate | exfalso; apply Hp; reflexivity].
+  destruct (nth (N.to_nat idx) (ax_refs a) (0, 0)) as [dict data].
+  destruct (checked_span a data); [|discriminate].
+  destruct (negb (dict =? 0)); [|apply IH].
+  destruct (checked_span a dict); [apply IH | discriminate].
+Qed.
+
+Lemma Forall_sort_by {A} (P : A -> Prop) key l : Forall P l -> Forall P (sort_by key l).
+Proof.
+  unfold sort_by. intro H.
+  assert (I : forall x l', P x -> Forall P l' -> Forall P (insert_by key x l')).
+  { intros x l' Hx Hl. induction Hl as [|y r Hy Hr IHl]; cbn [insert_by].
+    - constructor; [exact Hx | constructor].
+    - destruct (key x <? key y); constructor; try assumption. constructor; assumption. }
+  assert (G : forall acc, Forall P acc -> Forall P (fold_left (fun acc x => insert_by key x acc) l acc)).
+  { induction H as [|x r Hx Hr IHf]; intros acc Ha; cbn [fold_left]; [exact Ha|]. apply IHf. apply I; assumption. }
+  apply G. constructor.
+Qed.
+
+(* getMany never crashes the process: every reference is validated in resolve (002bc81) *)
+Theorem no_panic_archive_get_many : forall a reqs,
+  N.of_nat (length (ax_prefixes a)) < 4294967296 -> Forall (fun x => x < u64) (ax_prefixes a) ->
+  Forall (fun h => addr_prefix h < u64) reqs ->
+  aget_many a reqs <> GMCrash.
+Proof.
+  intros a reqs H1 H3 Hr. unfold aget_many.
+  pose proof (aresolve_np a H1 H3 _ (Forall_sort_by _ addr_prefix _ Hr) []) as R.
+  destruct (aresolve a _ []); try discriminate. contradiction.
+Qed.
+
 Lemma aiter_loop_np crc fuel file a limit : forall counter pos acc, aiter_loop crc fuel file a limit counter pos acc <> IPanic.
 Proof.
   induction fuel as [|f IH]; intros counter pos acc; cbn [aiter_loop]; [discriminate|].
@@ -552,8 +587,9 @@ Qed.
 
 (* regression: the witnesses of the repaired archive findings are errors now *)
 Example regression_archive_chunk_ref :
-  exists a, open_archive a_ref_oob = Ok a /\ aget crc32c a_ref_oob a a_h1 = GErr /\ aiterate crc32c a_ref_oob a = IErr.
-Proof. eexists. split; [vm_compute; reflexivity|]. split; vm_compute; reflexivity. Qed.
+  exists a, open_archive a_ref_oob = Ok a /\ aget crc32c a_ref_oob a a_h1 = GErr /\ aiterate crc32c a_ref_oob a = IErr
+            /\ aresolve a [a_h1] [] = Err /\ aget_many a [a_h1; a_h2] = GMNoCrash.
+Proof. eexists. split; [vm_compute; reflexivity|]. split; [vm_compute; reflexivity|]. split; [vm_compute; reflexivity|]. split; vm_compute; reflexivity. Qed.
 
 Example regression_archive_span_length :
   exists a, open_archive a_span_dec = Ok a /\ aget crc32c a_span_dec a a_h2 = GErr /\ aiterate crc32c a_span_dec a = IErr.
